@@ -171,3 +171,61 @@ mod c18_brk {
         check(r, &key.dist, &hdr, total);
     }
 }
+
+// ------------------------------------------------------------------------------------------------
+// C14 — mod_switch_2n (fix c84834e): for every limb radix, both directions, the switched value is the nearest integer to
+// x * 2^(log2(2N*ext) - 1) where x in [-1/2, 1/2) is the EXACT torus value of ALL limbs (bounded: 3 limbs, two coefficients,
+// domain size 32; limbs symbolic balanced digits; radix constant per harness).
+// ------------------------------------------------------------------------------------------------
+mod c14_mod_switch {
+    use crate::blind_rotation::{mod_switch_2n, LookUpTableRotationDirection};
+    use poulpy_core::layouts::{LWE, LWEToRef};
+    use poulpy_hal::layouts::ZnxViewMut;
+
+    fn case<const B: usize>(left: bool) {
+        const LIMBS: usize = 3;
+        let n: usize = 32; // 2N*ext: log2n = 6, result on 5 bits
+        let mut lwe: LWE<Vec<u8>> = LWE::alloc(1u32.into(), (B as u32).into(), ((B * LIMBS) as u32).into());
+        let half: i64 = 1i64 << (B - 1);
+        let mut v: [i128; 2] = [0; 2];
+        for i in 0..LIMBS {
+            for c in 0..2 {
+                let d: i64 = kani::any();
+                kani::assume(-half <= d && d < half);
+                lwe.data_mut().at_mut(0, i)[c] = d;
+                v[c] = (v[c] << B) + d as i128;
+            }
+        }
+        let mut res: [i64; 2] = [0; 2];
+        let dir = if left { LookUpTableRotationDirection::Left } else { LookUpTableRotationDirection::Right };
+        mod_switch_2n(n, &mut res, &lwe.to_ref(), dir);
+        let k: u32 = (B * LIMBS) as u32; // total bits
+        for c in 0..2 {
+            let exact: i128 = if left { -v[c] } else { v[c] }; // x = exact / 2^k
+            // | res * 2^k - exact * 2^5 | <= 2^(k-1) + 2^(k-5)   (half a unit of the result + the limbs below the guard bits)
+            let lhs: i128 = ((res[c] as i128) << k) - (exact << 5);
+            let tol: i128 = (1i128 << (k - 1)) + (1i128 << (k.saturating_sub(5)));
+            assert!(-tol <= lhs && lhs <= tol, "C14:mod_switch_2n == round(x * 2^(log2(2N)-1))");
+        }
+    }
+    #[kani::proof] #[kani::unwind(5)] fn c14_mod_switch__b3_right() { case::<3>(false); }
+    #[kani::proof] #[kani::unwind(5)] fn c14_mod_switch__b3_left() { case::<3>(true); }
+    #[kani::proof] #[kani::unwind(5)] fn c14_mod_switch__b6_right() { case::<6>(false); }
+    #[kani::proof] #[kani::unwind(5)] fn c14_mod_switch__b6_left() { case::<6>(true); }
+    #[kani::proof] #[kani::unwind(5)] fn c14_mod_switch__b13_right() { case::<13>(false); }
+    #[kani::proof] #[kani::unwind(5)] fn c14_mod_switch__b13_left() { case::<13>(true); }
+    #[kani::proof] #[kani::unwind(5)] fn c14_mod_switch__b2_right() { case::<2>(false); }
+    #[kani::proof] #[kani::unwind(5)] fn c14_mod_switch__b2_left() { case::<2>(true); }
+    #[kani::proof] #[kani::unwind(5)] fn c14_mod_switch__b4_right() { case::<4>(false); }
+    #[kani::proof] #[kani::unwind(5)] fn c14_mod_switch__b4_left() { case::<4>(true); }
+    #[kani::proof] #[kani::unwind(5)] fn c14_mod_switch__b5_right() { case::<5>(false); }
+    #[kani::proof] #[kani::unwind(5)] fn c14_mod_switch__b5_left() { case::<5>(true); }
+    #[kani::proof] #[kani::unwind(5)] fn c14_mod_switch__b7_right() { case::<7>(false); }
+    #[kani::proof] #[kani::unwind(5)] fn c14_mod_switch__b7_left() { case::<7>(true); }
+    #[kani::proof] #[kani::unwind(5)] fn c14_mod_switch__b8_right() { case::<8>(false); }
+    #[kani::proof] #[kani::unwind(5)] fn c14_mod_switch__b8_left() { case::<8>(true); }
+    #[kani::proof] #[kani::unwind(5)] fn c14_mod_switch__b10_right() { case::<10>(false); }
+    #[kani::proof] #[kani::unwind(5)] fn c14_mod_switch__b10_left() { case::<10>(true); }
+    #[kani::proof] #[kani::unwind(5)] fn c14_mod_switch__b19_right() { case::<19>(false); }
+    #[kani::proof] #[kani::unwind(5)] fn c14_mod_switch__b19_left() { case::<19>(true); }
+}
